@@ -4,6 +4,7 @@
     Constant / Extract Inductive of our own. *)
 Require Extraction.
 Require Import ExtrOcamlBasic.
-From NX Require Import Frame Pad.
+From NX Require Import Frame Pad Records.
 Extraction "model.ml" Frame.frame_create Frame.frame_decode Frame.recv_dispatch
-  Frame.hdr_decode Frame.crc16 Crc.crc_spec Pad.data_align.
+  Frame.hdr_decode Frame.crc16 Crc.crc_spec Pad.data_align
+  Records.chan_new Records.dev_new Records.chan_setattr Records.dev_setattr Records.get.
